@@ -98,6 +98,11 @@ func (a *adversary) sig(id primitives.MemberId, height primitives.BlockHeight, c
 		s = a.forge()
 	case mode == "empty":
 		s = []byte{}
+	case mode == "otherinst":
+		// the same members, with the same keys, also run ANOTHER instance of the protocol: what they sign there is genuine and the
+		// adversary may replay it here.  Only used for content whose signed header carries another instance id (an over-approximation
+		// of what that instance would sign, which is safe: nothing signed for another instance may have any effect in this one)
+		s = a.cl.ring.sign(id, uint64(height), content)
 	case a.canSignAs(id):
 		s = a.cl.ring.sign(id, uint64(height), content)
 	default:
@@ -121,6 +126,8 @@ func (a *adversary) share(id primitives.MemberId, height primitives.BlockHeight,
 	switch {
 	case mode == "forged":
 		return a.forge()
+	case mode == "otherinst": // see sig(): the member's own share, as it would send it in the other instance
+		return a.cl.ring.share(id, uint64(height), a.seedBytes(uint64(height)))
 	case mode == "other": // the valid share of the next identity, computed with its key (lone-node tables: every key is held)
 		for i, x := range a.cl.ids {
 			if x.Equal(id) {
